@@ -626,6 +626,11 @@ class Parser:
         if not conversion:
             conversion = b"r"[0] if debug and format_spec is None else -1
         node = ast.FormattedValue(value=value, conversion=conversion, format_spec=format_spec, **locs)
+        if self._spec_nesting(node) > 2:  # noqa: PLR2004
+            deepest = node
+            while nested := self._spec_fields(deepest):
+                deepest = max(nested, key=self._spec_nesting)
+            self.raise_syntax_error_known_location("f-string: expressions nested too deeply", deepest)
         if debug:
             # everything between the opening brace and the end of '=' plus the blanks that follow it
             first, last = locs["lineno"], debug.end[0]
@@ -649,6 +654,15 @@ class Parser:
                 end_col_offset=end,
             )
         return node
+
+    @staticmethod
+    def _spec_fields(node: ast.FormattedValue) -> list[ast.FormattedValue]:
+        spec = node.format_spec
+        return [v for v in spec.values if isinstance(v, ast.FormattedValue)] if isinstance(spec, ast.JoinedStr) else []
+
+    def _spec_nesting(self, node: ast.FormattedValue) -> int:
+        """How many levels of replacement fields lie inside the format spec of this field."""
+        return 1 + max(map(self._spec_nesting, nested)) if (nested := self._spec_fields(node)) else 0
 
     _fstring_escape = re.compile(r"\\(?:N\{[^{}]*\}|[0-7]{1,3}|x[0-9a-fA-F]{0,2}|u[0-9a-fA-F]{0,4}|U[0-9a-fA-F]{0,8}|[^{}])|\{\{|\}\}", re.S)
 
